@@ -448,9 +448,9 @@ func checkMain(args []string) int {
 			os.MkdirAll(*replays, 0755)
 			path := filepath.Join(*replays, *prop+"-real-networks.json")
 			os.WriteFile(path, b, 0644)
-			fmt.Printf("violation key=C12/real-network-transcript: %d real-network configurations differ from the expected transcript\n", len(bad))
+			fmt.Printf("violation key=%s/real-network-transcript: %d real-network configurations differ from the expected transcript\n", *prop, len(bad))
 			fmt.Printf("VIOLATION property=%s replay=%s\n", *prop, path)
-			newViol = append(newViol, "C12/real-network-transcript")
+			newViol = append(newViol, *prop+"/real-network-transcript")
 			exit = 1
 		}
 		delete(realRes, "results")
